@@ -289,7 +289,7 @@ func c17Run(c *core.Ctx) {
 		}
 	}
 	for _, cs := range deepCases(c) {
-		if strings.Contains(cs.Why, "5000 block levels") {
+		if strings.Contains(cs.Why, "2000 block levels") {
 			continue // formatted text indents every line by its depth: quadratic output, left to the checks that do not format
 		}
 		if c.Next() {
